@@ -174,3 +174,14 @@ CLAIMED['C43'] = dict(
     note="NOT decided here: CPU-list parsing (std::string/strtol/strchr) and cache-topology grouping (std::vector of structs) - outside the extractable subset, said so in the evidence. "
          "count() is proved only to forward glibc's __sched_cpucount (axiom stub). Linux variant only.",
     technique="CBMC DFCC function + loop contracts over the extracted methods and glibc macros, ghost membership index")
+
+CLAIMED['C37'] = dict(
+    category='proof',
+    text="Per-function contracts on the extracted arena code, for all values: constructor size arithmetic (kBufferSize is the smallest power of two >= minBuffSize, mask/shift consistent; "
+         "log2i loop unwound completely over its 64-bit bound), operator[]'s index split is a bijection onto (buffer < buffersPos_, offset < kBufferSize), constructObjects default-"
+         "constructs exactly the indices [begin,end) once each and in order (nested CBMC loop contracts with a ghost construction cursor), the copy constructor reads only initialised "
+         "entries of the source's pointer table, writes inside the new table, copies every live buffer and reproduces size/capacity fields, getBufferSize's per-buffer sizes add up to size().",
+    note="Buffers are block ids in a ghost heap (memcpy/alignedMalloc become ghost events), Index = size_t. NOT decided: disjointness of concurrent grow_by reservations under interleaving "
+         "(it rests on the CAS on pos_, i.e. the RMW axiom), the resize mutex (RAII lock_guard), deleteLater_ bookkeeping, swap/move/assignment. The copy-constructor defect this check "
+         "found on the pinned tree was repaired (fix: commit in known_findings.txt).",
+    technique="CBMC DFCC function + nested loop contracts with ghost heap / ghost construction cursor")
